@@ -314,7 +314,10 @@ def fuzz_worker(job):
 
 # ---------------------------------------------------------------- injection
 def exc_of(cls):
+    import decimal
+
     import yaml
+    import jsonargparse._namespace as _ns
     from jsonargparse._util import PathError
 
     class Other(Exception):
@@ -323,7 +326,9 @@ def exc_of(cls):
     table = {"TypeError": TypeError("injected"), "PathError": PathError("injected"), "KeyError": KeyError("injected"), "ValueError": ValueError("injected"),
              "ArgparseError": argparse.ArgumentError(None, "injected"), "Loader": yaml.YAMLError("injected"), "AttributeError": AttributeError("injected"),
              "ImportError": ImportError("injected"), "RecursionError": RecursionError("injected"), "OSError": OSError("injected"), "IndexError": IndexError("injected"),
-             "AssertionError": AssertionError("injected"), "OverflowError": OverflowError("injected"), "Other": Other("injected")}
+             "AssertionError": AssertionError("injected"), "OverflowError": OverflowError("injected"), "Other": Other("injected"),
+             "NSKeyError": _ns.NSKeyError("injected"), "UnicodeError": UnicodeDecodeError("utf-8", b"\xff", 0, 1, "injected"),
+             "ArithmeticError": ArithmeticError("injected"), "InvalidOperation": decimal.InvalidOperation("injected")}
     return table.get(cls)
 
 
@@ -351,7 +356,33 @@ SITES = {
     ("parse_env", "adapt the value of a variable"): ("adapt", lambda p: p.parse_env({"APP_I": "INJECT"})),
     ("parse_env", "load the config variable"): ("load", lambda p: p.parse_env({"APP_CFG": "i: INJECT"})),
     ("parse_env", "validate"): ("validate", lambda p: p.parse_env({"APP_I": "2"})),
+    # routes repaired by fix: commits (4bbf74f, 02016da, 00b82b0, 4f4bba8) and the general registered-type frame
+    ("parse_args", "deserialise a registered type"): ("registered", lambda p: p.parse_args(["--r=INJECT"])),
+    ("parse_object", "deserialise a registered type"): ("registered", lambda p: p.parse_object({"r": "INJECT"})),
+    ("parse_string", "deserialise a registered type"): ("registered", lambda p: p.parse_string('{"r": "INJECT"}')),
+    ("parse_env", "deserialise a registered type"): ("registered", lambda p: p.parse_env({"APP_R": "INJECT"})),
+    ("parse_args", "deserialise a decimal.Decimal"): ("decimal", lambda p: p.parse_args(["--dec=INJECT"])),
+    ("parse_object", "deserialise a decimal.Decimal"): ("decimal", lambda p: p.parse_object({"dec": "INJECT"})),
+    ("parse_string", "deserialise a decimal.Decimal"): ("decimal", lambda p: p.parse_string('{"dec": "INJECT"}')),
+    ("parse_env", "deserialise a decimal.Decimal"): ("decimal", lambda p: p.parse_env({"APP_DEC": "INJECT"})),
+    ("parse_path", "read the file (Path.get_content in parse_path)"): ("get-content", lambda p: p.parse_path(p._inject_file2)),
+    ("parse_args", "read the file of --cfg (Path.get_content in parse_path)"): ("get-content", lambda p: p.parse_args(["--cfg", p._inject_file2])),
+    # NATURAL sites: nothing is patched, the input itself makes the stage raise the one class named
+    ("parse_args", "convert an int to float (float(val) in the leaf branch)"): ("natural:OverflowError", lambda p: p.parse_args(["--f=1" + "0" * 400])),
+    ("parse_object", "convert an int to float (float(val) in the leaf branch)"): ("natural:OverflowError", lambda p: p.parse_object({"f": 10 ** 400})),
+    ("parse_string", "convert an int to float (float(val) in the leaf branch)"): ("natural:OverflowError", lambda p: p.parse_string('{"f": 1' + "0" * 400 + "}")),
+    ("parse_args", "select the sub-command named in a config (get_subcommands)"): ("natural:NSKeyError", lambda p: p.parse_args(['--cfg={"subcommand": "zz"}'])),
+    ("parse_object", "select the sub-command named in a config (get_subcommands)"): ("natural:NSKeyError", lambda p: p.parse_object({"subcommand": "zz"})),
+    ("parse_string", "select the sub-command named in a config (get_subcommands)"): ("natural:NSKeyError", lambda p: p.parse_string('{"subcommand": "zz"}')),
 }
+
+
+def site_applies(method, stage, cls):
+    """an injection site exists for this row (a natural site makes the stage raise ONE class only)"""
+    if (method, stage) not in SITES or cls == "SystemExit":
+        return False
+    how = SITES[(method, stage)][0]
+    return not how.startswith("natural:") or how == "natural:" + cls
 
 
 def inject_worker(job):
@@ -381,6 +412,12 @@ def inject_worker(job):
         p.add_argument("--i", type=int, default=1)
         p.add_argument("--u", type=Union[int, List[str]], default=1)
         p.add_argument("--j", type=int, default=0)
+        p.add_argument("--f", type=float, default=1.0)
+        if how == "natural:NSKeyError":
+            sc = p.add_subcommands(required=False)
+            sa = ArgumentParser()
+            sa.add_argument("--k", type=int, default=1)
+            sc.add_subcommand("alpha", sa)
         f1 = os.path.join(tmp, "inj.yaml")
         with open(f1, "w") as fh:
             fh.write("i: INJECT\n")
@@ -422,6 +459,44 @@ def inject_worker(job):
                 return real(path, *a, **k)
 
             patch(mod, "Path", fake)
+        elif how == "registered":
+            import jsonargparse.typing as _typing
+
+            class Inj:
+                def __init__(self, v):
+                    if v == "INJECT":
+                        raise ex
+                    self.v = v
+
+            _typing.register_type(Inj)  # default deserializer_exceptions
+            undo.append((None, Inj, None))
+            p.add_argument("--r", type=Inj, default=None)
+        elif how == "decimal":
+            import decimal
+
+            import jsonargparse.typing as _typing
+
+            p.add_argument("--dec", type=decimal.Decimal, default=decimal.Decimal(1))
+            handler = _typing.get_registered_type(decimal.Decimal)
+            real = handler.base_deserializer  # what RegisteredType.deserializer calls inside its own `except`
+
+            def fake(v):
+                if v == "INJECT":
+                    raise ex
+                return real(v)
+
+            patch(handler, "base_deserializer", fake)
+        elif how == "get-content":
+            real = _core.Path.get_content
+
+            def fake(self, *a, **k):
+                if "inj" in os.path.basename(str(self)):
+                    raise ex
+                return real(self, *a, **k)
+
+            patch(_core.Path, "get_content", fake)
+        elif how.startswith("natural:"):
+            pass
         elif how == "link":
             def fn(v):
                 raise ex
@@ -458,7 +533,12 @@ def inject_worker(job):
         return {"method": method, "stage": stage, "cls": cls, "out": out, "detail": detail}
     finally:
         for mod, name, old in reversed(undo):
-            setattr(mod, name, old)
+            if mod is None:
+                import jsonargparse.typing as _typing
+
+                _typing.registered_type_handlers.pop(name, None)
+            else:
+                setattr(mod, name, old)
         shutil.rmtree(tmp, ignore_errors=True)
 
 
@@ -486,7 +566,7 @@ def main(argv):
 
     # ---- REPLAY: injection
     jobs = [{"method": r["method"], "stage": r["stage"], "cls": r["cls"], "frames": r["frames"], "comes": r["comes"]} for r in rows
-            if (r["method"], r["stage"]) in SITES and r["cls"] != "SystemExit"]
+            if site_applies(r["method"], r["stage"], r["cls"])]
     jobs.sort(key=lambda j: (j["method"], j["stage"], j["cls"]))
     inj = pipeline.run_many(inject_worker, jobs, chunksize=4)
     rep.extra["injected_routes"] = len(jobs)
